@@ -199,6 +199,37 @@ pub fn run() -> i32 {
             });
         }
     }
+    // codes 5..15 (IUPAC ambiguity codes) and 30: every code at every position of every ACGT contig
+    for (k, lmax) in [(1usize, 4usize), (2, 6), (3, 6), (4, 6)] {
+        for len in 1..=lmax {
+            let total = ipow(4, len);
+            par_for(16.min(total as usize), ncpu(), |ci| {
+                let chunks = 16.min(total as usize) as u64;
+                let lo = total * ci as u64 / chunks;
+                let hi = total * (ci as u64 + 1) / chunks;
+                let mut st = Stats { cases: 0, multi: 0, local: BTreeMap::new() };
+                for i in lo..hi {
+                    let base = nth_string(i, len, &[0, 1, 2, 3]);
+                    for pos in 0..len {
+                        for code in [5u8, 6, 9, 11, 14, 15, 30] {
+                            let mut c = base.clone();
+                            c[pos] = code;
+                            // dense splitter set: every canonical k-mer over ACGT of length k
+                            let all: AHashSet<u64> = (0..ipow(4, k)).filter_map(|x| canon(&nth_string(x, k, &[0, 1, 2, 3]))).collect();
+                            one_case(&rep, &mut st, &c, k, &all, "iupac_dense");
+                            let kms = contig_kmers(&c, k);
+                            let set: AHashSet<u64> = kms.iter().copied().collect();
+                            one_case(&rep, &mut st, &c, k, &set, "iupac_own");
+                        }
+                    }
+                }
+                let mut t = tot.lock().unwrap();
+                t.cases += st.cases;
+                t.multi += st.multi;
+                for (k, v) in st.local { *t.local.entry(k).or_insert(0) += v; }
+            });
+        }
+    }
     // k = 5..32 on periodic contigs
     let pmax = if thorough { 6 } else { 4 };
     let ks: Vec<usize> = (5..=32).collect();
